@@ -317,8 +317,8 @@ func mulValRatio(value Quantity, ratio float64) Quantity {
 		return 0
 	}
 	result := float64(value) * ratio
-	// protect against positive integer overflow
-	if result > math.MaxInt64 {
+	// protect against positive integer overflow: MaxInt64 as a float64 is 2^63, which does not fit
+	if result >= math.MaxInt64 {
 		log.Log(log.Resources).Warn("Multiplication result positive overflow",
 			zap.Float64("value", float64(value)),
 			zap.Float64("ratio", ratio))
